@@ -305,9 +305,9 @@ def run(p):
     from tm_oracle import merge
     merge(p, sp.state())
     run_chunks(p, [
-        (chunk_exact, 'exact', 64 if t else 8, p.n(38, 400)),
-        (chunk_agree, 'agree', 16 if t else 1, p.n(1500, 20000)),
-        (chunk_structure, 'structure', 16 if t else 1, p.n(1500, 20000)),
+        (chunk_exact, 'exact', 64 if t else 8, p.n(38, 300)),
+        (chunk_agree, 'agree', 16 if t else 1, p.n(1500, 15000)),
+        (chunk_structure, 'structure', 16 if t else 1, p.n(1500, 15000)),
     ])
 
 
